@@ -5,6 +5,7 @@ package main
 // of the trusted base and listed in the evidence.
 
 import (
+	"fmt"
 	"go/token"
 	"go/types"
 )
@@ -60,6 +61,7 @@ func (w *World) initModels() {
 		return Val{T: t, Typ: rt}
 	}
 	w.modelTargets["net/http.CanonicalHeaderKey"] = func(c *Ctx) []havocTarget { return nil }
+	w.models["sort.Slice"] = sortSlice
 }
 
 // mapStore performs m[k] = v with exact domain and length bookkeeping.
@@ -75,6 +77,80 @@ func (f *Frame) mapStore(st *State, mt *types.Map, m, k, v string, pos token.Pos
 	c.heapSet(st, d, "(store "+dh+" "+m+" (store (select "+dh+" "+m+") "+k+" true))")
 	c.heapSet(st, vh, "(store "+vv+" "+m+" (store (select "+vv+" "+m+") "+k+" "+v+"))")
 	c.heapSet(st, lh, "(store "+c.heapGet(st, lh, c.heapSort[lh])+" "+m+" "+ite(was, oldLen, c.iadd(oldLen, c.idxLit(1)))+")")
+}
+
+// sortSlice models sort.Slice(x, less): the elements of x are permuted (an
+// explicit bijection pi with inverse) and afterwards ordered with respect to
+// less, whose meaning is taken from the closure's pure contract
+// "ensures result == <expr over i, j>".
+func sortSlice(f *Frame, args []Val, rt types.Type, st *State, pos token.Pos) Val {
+	c := f.c
+	if len(args) != 2 || len(args[0].Bind) != 1 || args[1].Fn == nil {
+		c.unsupported("sort.Slice: slice or comparison function not statically known")
+		return f.havocCall("sort.Slice", rt, st)
+	}
+	s := args[0].Bind[0]
+	sl, ok := s.Typ.Underlying().(*types.Slice)
+	if !ok {
+		c.unsupported("sort.Slice on non-slice")
+		return f.havocCall("sort.Slice", rt, st)
+	}
+	less := args[1]
+	ct := c.W.Specs.Contracts[funcKey(less.Fn)]
+	var lessRHS Expr
+	if ct != nil && ct.Pure {
+		for _, e := range ct.Ensures {
+			if b, ok := e.E.(*EBin); ok && b.Op == "==" {
+				if id, ok := b.L.(*EIdent); ok && id.Name == "result" {
+					lessRHS = b.R
+				}
+			}
+		}
+	}
+	if lessRHS == nil {
+		c.unsupported("sort.Slice: comparison closure %s needs a pure contract 'ensures result == <expr>'", shortFuncKey(less.Fn))
+		return f.havocCall("sort.Slice", rt, st)
+	}
+	c.usedContracts[ct.Key] = true
+	h, srt := c.memHeap(sl.Elem())
+	f.frameCheck(h, "(sl.base "+s.T+")", pos, "sort.Slice")
+	mem := c.heapGet(st, h, srt)
+	es := c.sortOf(sl.Elem())
+	idx := c.idxSort()
+	oldArr := c.name("sortold", "(select "+mem+" (sl.base "+s.T+"))", "(Array "+idx+" "+es+")")
+	na := c.fresh("sorted")
+	c.declConst(na, "(Array "+idx+" "+es+")")
+	pi := c.fresh("pi")
+	pinv := c.fresh("piinv")
+	c.declFun(pi, []string{idx}, idx)
+	c.declFun(pinv, []string{idx}, idx)
+	off, n := "(sl.off "+s.T+")", "(sl.len "+s.T+")"
+	inR := func(v string) string { return and(c.ile(c.idxLit(0), v), c.ilt(v, n)) }
+	g := f.curGuard
+	c.assume(g, fmt.Sprintf("(forall ((i!p %s)) (! (=> %s (and %s (= (select %s %s) (select %s %s)) (= (%s (%s i!p)) i!p))) :pattern ((select %s %s)) :pattern ((%s i!p))))",
+		idx, inR("i!p"), inR("("+q(pi)+" i!p)"), q(na), c.eidx(off, "i!p"), oldArr, c.eidx(off, "("+q(pi)+" i!p)"), q(pinv), q(pi), q(na), c.eidx(off, "i!p"), q(pi)))
+	c.assume(g, fmt.Sprintf("(forall ((j!p %s)) (! (=> %s (and %s (= (%s (%s j!p)) j!p))) :pattern ((%s j!p))))",
+		idx, inR("j!p"), inR("("+q(pinv)+" j!p)"), q(pi), q(pinv), q(pinv)))
+	c.heapSet(st, h, "(store "+mem+" (sl.base "+s.T+") "+q(na)+")")
+	// ordered: for a < b, not less(b, a), evaluated in the state after the sort
+	env := f.calleeEnv(ct, less.Fn, less.Fn.Signature, append(append([]Val{}, less.Bind...), Val{T: "b!s", Typ: types.Typ[types.Int]}, Val{T: "a!s", Typ: types.Typ[types.Int]}))
+	env.cur, env.old = st, st
+	env.bound = map[string]bool{}
+	before := len(c.Log)
+	t, err := env.boolTerm(lessRHS)
+	extra := append([]string{}, c.Log[before:]...)
+	c.Log = c.Log[:before]
+	if err != nil {
+		c.unsupported("sort.Slice: cannot translate comparison contract: %v", err)
+		return Val{Typ: rt}
+	}
+	for _, x := range extra {
+		c.Log = append(c.Log, x)
+	}
+	c.assume(g, fmt.Sprintf("(forall ((a!s %s) (b!s %s)) (=> (and %s %s %s) (not %s)))", idx, idx, c.ile(c.idxLit(0), "a!s"), c.ilt("a!s", "b!s"), c.ilt("b!s", n), t))
+	// handles for specifications: the permutation of the last sort
+	c.lastPi, c.lastPiInv = q(pi), q(pinv)
+	return Val{Typ: rt}
 }
 
 func (w *World) builtinModel(key string) modelFn { return w.models[key] }
